@@ -67,7 +67,7 @@ def oracle(g, env, inp, opts, has_ignore):
     if (pa[0] == "ok") != (se[0] == "ok"):
         # F-08d: `expr + StringEnd()` wraps expr in an And that pre-skips whitespace with the DEFAULT whitespace set when expr's own
         # flag says "skips" - an Or / MatchFirst whose alternative begins with a nested White / LineEnd / LineStart (elements with their own whitespace set) then never sees the blanks or newlines
-        white = (not has_ignore) and any(w in repr(g) for w in ("('white',", "('lineend'", "('linestart'", "('setws',")) and se[0] == "err" and pa[0] == "ok"
+        white = (not has_ignore) and any(w in repr(g) for w in ("('white',", "('lineend'", "('linestart'", "('setws',"))     # either direction: the And's pre-skip changes which alternative sees the text
         bad.append(("parse_all-vs-StringEnd" + (":ignore" if has_ignore else ":nested-white" if white else ""),
                     "parse_string(parse_all=True) -> %r but (expr + StringEnd()).parse_string -> %r" % (pa, se)))
     elif pa[0] == "ok" and pa[1] != plain[1]:
